@@ -980,6 +980,17 @@ class Data(object):
         else: #pass on to superclass
             super(Data,self).__setattr__(key,value)
 
+    def __delattr__(self, key):
+        """Convert delattr to delitem on self.__dict__
+
+           object.__delattr__ deletes from the odict in .__dict__ with the
+           C level dict api so the odict's ordered key list would keep the key
+        """
+        if key in self.__dict__:
+            self.__dict__.__delitem__(key)
+        else:
+            super(Data,self).__delattr__(key)
+
     def __repr__(self):
         """
         Representation
